@@ -70,6 +70,12 @@ class Rec:
             return xs[i]
 
         e["bump"] = bump
+
+        class Pair:      # native reading of the header's struct (the corpus never copies a struct value, so reference semantics is unobservable)
+            def __init__(self, a, b):
+                self.a, self.b = a, b
+
+        e["Pair"] = Pair
         return e
 
 
